@@ -145,7 +145,8 @@ def _tail(path, n=30):
         return []
 
 
-def run_pool(pid, cases, env, workdir, nworkers, default_timeout, startup=240.0):
+def run_pool(pid, cases, env, workdir, nworkers, default_timeout, startup=240.0,
+             chunk_min=8):
     """Run all cases; returns list of result dicts (one per case, in any order)."""
     q = queue.Queue()
     # chunk by generator so that a worker re-uses JIT signatures
@@ -158,7 +159,7 @@ def run_pool(pid, cases, env, workdir, nworkers, default_timeout, startup=240.0)
     nslots = max(1, nworkers)
     allchunks = []
     for g, lst in chunks.items():
-        size = max(1, min(40, -(-len(lst) // nslots)))
+        size = max(chunk_min, min(40, -(-len(lst) // nslots)))
         for i in range(0, len(lst), size):
             allchunks.append(lst[i:i + size])
     # longest generators first would need costs; interleave instead
@@ -291,7 +292,8 @@ def main(argv=None):
     by_id = {c["id"]: c for c in cases}
 
     results = run_pool(pid, cases, env, workdir, min(args.workers, len(cases)),
-                       spec.get("case_timeout", 120.0))
+                       spec.get("case_timeout", 120.0),
+                       chunk_min=spec.get("chunk_min", 8))
 
     # ---- aggregate -----------------------------------------------------
     from vf import findings as F
